@@ -242,7 +242,8 @@ func (s *State) evalInternal(node any) object.Object { //nolint:funlen,gocognit,
 			return s.evalAssignment(s.Eval(node.Right), node)
 		}
 		// Humans expect left to right evaluations.
-		left := s.Eval(node.Left)
+		// (the value the left operand has now: the right operand may assign the register it comes from, a + (a = 10))
+		left := object.CopyRegister(s.Eval(node.Left))
 		if left.Type() == object.ERROR {
 			return left
 		}
@@ -278,7 +279,7 @@ func (s *State) evalInternal(node any) object.Object { //nolint:funlen,gocognit,
 		if node.ReturnValue == nil {
 			return object.ReturnValue{Value: object.NULL, ControlType: token.RETURN}
 		}
-		val := s.evalInternal(node.ReturnValue)
+		val := object.CopyRegister(s.evalInternal(node.ReturnValue)) // the value, the register is released and reused.
 		return object.ReturnValue{Value: val, ControlType: token.RETURN}
 	case *ast.Builtin:
 		return s.evalBuiltin(node)
@@ -574,7 +575,7 @@ func (s *State) evalBuiltin(node *ast.Builtin) object.Object {
 }
 
 func (s *State) evalIndexRangeExpression(left object.Object, leftIdx, rightIdx ast.Node) object.Object {
-	leftIndex := s.Eval(leftIdx)
+	leftIndex := object.CopyRegister(s.Eval(leftIdx)) // (its value now: the right bound may assign the same register)
 	nilRight := (rightIdx == nil)
 	var rightIndex object.Object
 	if nilRight {
@@ -1182,7 +1183,7 @@ func (s *State) evalForList(fe *ast.ForExpression, list object.Object, name stri
 				return s.Errorf("for loop unexpected control type %s", r.ControlType.String())
 			}
 		default:
-			lastEval = nextEval
+			lastEval = object.CopyRegister(nextEval) // (the body's value may be a parameter's register that changes later)
 		}
 	}
 	return lastEval
@@ -1219,7 +1220,7 @@ func (s *State) evalForExpression(fe *ast.ForExpression) object.Object {
 					return r
 				}
 			default:
-				lastEval = nextEval
+				lastEval = object.CopyRegister(nextEval)
 			}
 		case object.FALSE, object.NULL:
 			if log.LogVerbose() {
